@@ -54,4 +54,41 @@ theorem sqDist_nonneg (p q : Pt) : 0 ≤ sqDist p q := by
   unfold sqDist dist2
   nlinarith [mul_self_nonneg (q.x - p.x), mul_self_nonneg (q.y - p.y)]
 
+/-- … and the edge's indices are those of the two points: `e.u = i`, `e.v = j + m` where `q` is the m-th of `qs` -/
+theorem edgesFrom_index (shapes : List Poly) (excl : List Nat) (k i : Nat) (p : Pt) :
+    ∀ (qs : List Pt) (j : Nat) (e : WEdge), e ∈ edgesFrom shapes excl k i p qs j →
+      e.u = i ∧ e.u ≠ e.v ∧ ∃ m q, qs[m]? = some q ∧ e.v = j + m ∧ EdgeOk shapes excl k e p q := by
+  intro qs
+  induction qs with
+  | nil => intro j e h; simp [edgesFrom] at h
+  | cons q qs ih =>
+    intro j e h
+    unfold edgesFrom at h
+    simp only at h
+    split at h
+    · rename_i hc
+      rcases List.mem_cons.mp h with rfl | h'
+      · simp only [Bool.and_eq_true, Bool.not_eq_true', bne_iff_ne, ne_eq] at hc
+        refine ⟨rfl, hc.1, 0, q, rfl, rfl, ?_, rfl, rfl⟩
+        exact (unblockedTol_zero _ _ _ _).mp ((legUnblocked_iff 0 excl shapes (p, q)).mp hc.2)
+      · obtain ⟨hu, hne, m, q', hq', hv, hok⟩ := ih (j + 1) e h'
+        exact ⟨hu, hne, m + 1, q', by simpa using hq', by omega, hok⟩
+    · obtain ⟨hu, hne, m, q', hq', hv, hok⟩ := ih (j + 1) e h
+      exact ⟨hu, hne, m + 1, q', by simpa using hq', by omega, hok⟩
+
+theorem specGraphFrom_index (shapes : List Poly) (excl : List Nat) (k : Nat) (all : List Pt) :
+    ∀ (ps : List Pt) (i : Nat) (e : WEdge), e ∈ specGraphFrom shapes excl k all ps i →
+      e.u ≠ e.v ∧ ∃ m p q, ps[m]? = some p ∧ e.u = i + m ∧ all[e.v]? = some q ∧ EdgeOk shapes excl k e p q := by
+  intro ps
+  induction ps with
+  | nil => intro i e h; simp [specGraphFrom] at h
+  | cons p ps ih =>
+    intro i e h
+    unfold specGraphFrom at h
+    rcases List.mem_append.mp h with h | h
+    · obtain ⟨hu, hne, m, q, hq, hv, hok⟩ := edgesFrom_index shapes excl k i p all 0 e h
+      exact ⟨hne, 0, p, q, rfl, hu, by rw [hv, Nat.zero_add]; exact hq, hok⟩
+    · obtain ⟨hne, m, p', q, hp', hu, hq, hok⟩ := ih (i + 1) e h
+      exact ⟨hne, m + 1, p', q, by simpa using hp', by omega, hq, hok⟩
+
 end AdaptaVerif.Lemmas.SpecGraph
